@@ -551,7 +551,33 @@ func reflectMayBeInvalid(v ssa.Value, depth int, seen map[ssa.Value]bool) bool {
 	return false
 }
 
-// validityConds: the branch conditions of fn that, when true, imply that v is a valid reflect.Value.
+// invalidAssumes: for every branch condition of fn that says something about the validity of v, the outcome it has
+// when v is the zero Value: v.IsValid() false, v.Kind() == K false, v.Kind() != K true (K a real kind), and for
+// v = x.Elem(): x.IsNil() true (Elem of a non-nil interface or pointer is valid).
+func invalidAssumes(fn *ssa.Function, v ssa.Value) []Assume {
+	var as []Assume
+	for _, cond := range validityConds(fn, v) {
+		val := false
+		if bo, ok := cond.(*ssa.BinOp); ok && bo.Op == token.NEQ {
+			val = true
+		}
+		as = append(as, assumeCond(cond, val))
+	}
+	if call, ok := v.(*ssa.Call); ok && call.Call.StaticCallee() != nil && call.Call.StaticCallee().String() == "(reflect.Value).Elem" {
+		x := call.Call.Args[0]
+		for _, b := range fn.Blocks {
+			for _, in := range b.Instrs {
+				if c2, ok := in.(*ssa.Call); ok && c2.Call.StaticCallee() != nil && c2.Call.StaticCallee().String() == "(reflect.Value).IsNil" && (c2.Call.Args[0] == x || Term(c2.Call.Args[0]) == Term(x)) {
+					as = append(as, assumeCond(c2, true))
+				}
+			}
+		}
+	}
+	return as
+}
+
+// validityConds: the branch conditions of fn that decide whether v is a valid reflect.Value: v.IsValid(), and
+// comparisons of v.Kind() with a real kind (== K: true implies valid; != K: false implies valid).
 func validityConds(fn *ssa.Function, v ssa.Value) []ssa.Value {
 	var out []ssa.Value
 	isMethodOn := func(c ssa.Value, name string, recv ssa.Value) bool {
@@ -597,7 +623,7 @@ func validityConds(fn *ssa.Function, v ssa.Value) []ssa.Value {
 					out = append(out, x)
 				}
 			case *ssa.BinOp:
-				if x.Op != token.EQL {
+				if x.Op != token.EQL && x.Op != token.NEQ {
 					continue
 				}
 				k, isK := x.Y.(*ssa.Const)
@@ -653,10 +679,7 @@ func c10ReflectValidity(c *Ctx, scope map[*ssa.Function][]string) {
 						continue
 					}
 					n++
-					var as []Assume
-					for _, cond := range validityConds(fn, a) {
-						as = append(as, assumeCond(cond, false))
-					}
+					as := invalidAssumes(fn, a)
 					r, trail := PrunedCanReach(fn, nil, as, func(i2 ssa.Instruction) bool { return i2 == ssa.Instruction(call) }, nil)
 					what := "method " + sc.Name() + " is called on it"
 					if !isRecv {
